@@ -99,6 +99,24 @@ def opTsWin (a : List String) : Option String :=
     pure (toString w.1 ++ ":" ++ toString w.2 ++ "/" ++ showFloat (Src.delay_remainder fops d dt))
   | _ => none
 
+/-- `frame to|from|rot0|rotc  v(3 floats)  M(9 floats, rows)  o(3 floats)` : the translated `to_gcs` / `from_gcs` / `rotate` on one point -/
+def opFrame (a : List String) : Option String :=
+  match a with
+  | [which, v, m, o] => do
+    let v ← floatList? v; let m ← floatList? m; let o ← floatList? o
+    let g := fun (l : List Float) (i : Nat) => l.getD i 0
+    let pv : Arim.P3 Float := ⟨g v 0, g v 1, g v 2⟩
+    let po : Arim.P3 Float := ⟨g o 0, g o 1, g o 2⟩
+    let pm : Arim.Geo.M3 Float := ⟨⟨g m 0, g m 1, g m 2⟩, ⟨g m 3, g m 4, g m 5⟩, ⟨g m 6, g m 7, g m 8⟩⟩
+    let r : Arim.P3 Float ← match which with
+      | "to" => some (Src.to_gcs fops pv pm po)
+      | "from" => some (Src.from_gcs fops pv pm po)
+      | "rot0" => some (Src.rotate_about_origin fops pv pm)
+      | "rotc" => some (Src.rotate_about_centre fops pv pm po)
+      | _ => none
+    pure (showFloats [r.x, r.y, r.z])
+  | _ => none
+
 def route (op : String) (args : List String) : String :=
   let r := match op with
     | "huber" => opHuber args
@@ -109,6 +127,7 @@ def route (op : String) (args : List String) : String :=
     | "expand" => opExpand args
     | "mincell" => opMinCell args
     | "tswin" => opTsWin args
+    | "frame" => opFrame args
     | _ => none
   match r with
   | some s => "ok " ++ s
